@@ -4,15 +4,13 @@
               the field may be empty)
      field 2  start index, decimal u16
      field 3  half-move clock, decimal u32 as held by the board; the `as u16` cast of search.rs is applied
-   Observation: the count in decimal, or PANIC (array index out of bounds in `set` or `count_repetitions`).
-   A malformed case line gives BADCASE. *)
+   Observation: the count in decimal.  (The code cannot panic since fix aca2b0d; the Rust side still prints PANIC
+   if it ever does, which would then be a mismatch.)  A malformed case line gives BADCASE. *)
 Require Import Ink.Lib.Str.
 Require Import NArith List Bool.
 Import ListNotations.
 Require Import Ink.Model.History.
 Open Scope N_scope.
-
-Inductive outcome := Bad | Panicked | Done (h : hist).
 
 Definition parse_pair (w : str) : option (N * N) :=
   match split_on 58 w with                                   (* ':' *)
@@ -25,37 +23,26 @@ Definition parse_pair (w : str) : option (N * N) :=
   | _ => None
   end.
 
-Fixpoint apply_sets (h : hist) (ws : list str) : outcome :=
+(* None = malformed pair *)
+Fixpoint apply_sets (h : hist) (ws : list str) : option hist :=
   match ws with
-  | [] => Done h
+  | [] => Some h
   | w :: r =>
       match parse_pair w with
-      | None => Bad
-      | Some (i, v) => match hset h i v with None => Panicked | Some h' => apply_sets h' r end
+      | None => None
+      | Some (i, v) => apply_sets (hset h i v) r
       end
   end.
-
-(* every pair is parsed before anything runs, so that BADCASE does not depend on where a panic happens *)
-Definition all_parse (ws : list str) : bool :=
-  forallb (fun w => match parse_pair w with Some _ => true | None => false end) ws.
 
 Definition run_history (line : str) : str :=
   match fields line with
   | [f1; f2; f3] =>
-      let ws := words f1 in
       match nonempty f2, parse_digits 65535 0 f2, nonempty f3, parse_digits 4294967295 0 f3 with
       | true, Some start, true, Some half =>
-          if all_parse ws then
-            match apply_sets hempty ws with
-            | Bad => lit "BADCASE"
-            | Panicked => lit "PANIC"
-            | Done h =>
-                match count_repetitions_u32 h start half with
-                | None => lit "PANIC"
-                | Some c => show_N c
-                end
-            end
-          else lit "BADCASE"
+          match apply_sets hempty (words f1) with
+          | None => lit "BADCASE"
+          | Some h => show_N (count_repetitions_u32 h start half)
+          end
       | _, _, _, _ => lit "BADCASE"
       end
   | _ => lit "BADCASE"
